@@ -4,7 +4,10 @@ CONSTANTS
   Slots = {0, 31, 32, 63, 64, 100, 2047, 2048, 2080, 4200}
   Nows = {0, 64, 2079, 2080, 2111, 2112, 2143, 2144, 4160, 6300}
   SlotsPerEpoch = 32
+  NoRoot = 0
+  HasPayload = {1, 2, 3}
+  Deviation = "none"
   Retention = 64
   ScenLen = 12
-INVARIANTS Emit MapSound LookupRight
+INVARIANTS ExecHeadSound Emit MapSound LookupRight
 CHECK_DEADLOCK FALSE
